@@ -105,9 +105,17 @@ def observe_import(t):
             "rows": dense_rows(t), "omd": omd}
 
 
-def guarded(f):
+def guarded(f, profile=None):
+    """run a reader (optionally under a non-default error profile) and observe its table"""
+    import warnings
     try:
-        return observe_import(f())
+        if profile is None:
+            return observe_import(f())
+        import biom.err
+        with warnings.catch_warnings():
+            warnings.simplefilter("ignore")
+            with biom.err.errstate(**profile):
+                return observe_import(f())
     except Exception as e:  # noqa
         return {"error": core.err_name(e), "message": "%s: %s" % (type(e).__name__, str(e)[:200])}
 
@@ -141,6 +149,34 @@ class Lib:
         if r.exit_code != 0:
             exc = r.exception
             raise exc if isinstance(exc, Exception) else RuntimeError("biom convert exit %r" % r.exit_code)
+
+
+class AnyKey(dict):
+    """a mapping that also answers IDs it was not given (a misread table asks for them)"""
+
+    def __missing__(self, k):
+        return {"unknown": str(k)}
+
+
+def extra_cli_args(extra, samp_ids, direction):
+    """rarely used flags of `biom convert` that must not disturb IDs, grid or the category"""
+    args = []
+    if direction != "from-tsv":
+        return args
+    if extra.get("table_type"):
+        args += ["--table-type", extra["table_type"]]
+    if extra.get("sample_md") and all(
+            i == i.strip() and i and not any(c in i for c in "\t\n\r#\x0b\x0c\x1c\x1d\x1e\x85\u2028\u2029") and
+            '"' not in i for i in samp_ids):
+        fp = tmp("smd.txt")
+        with open(fp, "w", encoding="utf-8", newline="") as f:
+            f.write("#SampleID\tsite\n")
+            for j, i in enumerate(samp_ids):
+                f.write("%s\tsite %d\n" % (i, j))
+        args += ["-m", fp]
+    else:
+        extra["sample_md"] = False
+    return args
 
 
 def tmp(name):
@@ -221,7 +257,39 @@ def gen_spec(rng, max_n, max_m, shape=None, omd_kind=None):
 
 
 HISTORIES = ["none", "none", "sort_samples", "sort_obs", "transpose", "filter_samples", "filter_obs", "subsample",
-             "norm", "pa", "transform_zero", "copy", "sort_then_filter"]
+             "norm", "pa", "transform_zero", "copy", "sort_then_filter",
+             # export, then change the SAME objects in place, then the export under test (stale caches)
+             "export_then_transform", "export_then_pa", "export_then_norm", "export_then_update_ids",
+             "export_then_md_mutate", "export_then_sort_inplace_ids"]
+
+LONG_TAILS = ["_" * 9 + "long", " with a much longer name é日本", ".%s" % ("x" * 40), "é" * 12]
+
+
+def pre_export(t, rng):
+    """ask the exporters once, in random order (whatever they memoise is now keyed to these objects)"""
+    md = t.metadata(axis="observation")
+    key = None
+    if md is not None:
+        ks = [k for k in md[0].keys() if all(k in m_ and md_val(m_[k]) is not None for m_ in md)]
+        key = rng.choice(sorted(ks)) if ks else None
+    calls = ["to_tsv", "str", "delimited_self", "direct_io", "md"]
+    rng.shuffle(calls)
+    for c in calls[:rng.randint(1, len(calls))]:
+        try:
+            if c == "to_tsv":
+                t.to_tsv()
+            elif c == "str":
+                str(t)
+            elif c == "delimited_self":
+                t.delimited_self()
+            elif c == "direct_io":
+                t.to_tsv(direct_io=io.StringIO())
+            elif key is not None:
+                v = md_val(md[0][key])
+                t.to_tsv(header_key=key, header_value=key,
+                         metadata_formatter=(lambda x: "; ".join(x)) if isinstance(v, list) else str)
+        except Exception:  # noqa  (judged in the export under test)
+            pass
 
 
 def apply_history(t, h, hseed):
@@ -272,6 +340,54 @@ def apply_history(t, h, hseed):
     if h == "transform_zero":
         cut = rng.choice([1.0, 2.0, 10.0])
         return t.transform(lambda v, i, m: np.where(v > cut, 0.0, v), inplace=False)
+    if h.startswith("export_then_"):
+        core.poke_layout(t, rng)
+        pre_export(t, rng)
+        ax = rng.choice(["sample", "observation"])
+        if h == "export_then_transform":
+            k = rng.choice([2.0, 0.5, -1.0, 0.0])
+            with np.errstate(over="ignore"):
+                t.transform(lambda v, i, m: v * k, axis=ax, inplace=True)
+        elif h == "export_then_pa":
+            t.pa(inplace=True)
+        elif h == "export_then_norm":
+            arr = t.matrix_data.toarray()
+            with np.errstate(over="ignore"):
+                sums = arr.sum(axis=0 if ax == "sample" else 1)
+            if (sums == 0).any() or not np.isfinite(sums).all():
+                return None
+            t.norm(axis=ax, inplace=True)
+        elif h == "export_then_update_ids":
+            # new IDs longer than every existing one (IDs live in fixed-width arrays)
+            ids = list(t.ids(axis=ax))
+            longest = max(len(i) for i in ids)
+            new = {}
+            for j, i in enumerate(ids):
+                if rng.random() < 0.7:
+                    new[i] = i + rng.choice(LONG_TAILS) + "_" * max(0, longest - len(i)) + str(j)
+            t.update_ids(new, axis=ax, strict=False, inplace=True)
+        elif h == "export_then_md_mutate":
+            md = t.metadata(axis="observation")
+            if md is None:
+                t.add_metadata({i: {"taxonomy": ["k__new", "p__%d" % j]}
+                                for j, i in enumerate(t.ids(axis="observation"))}, axis="observation")
+            else:
+                for j, m_ in enumerate(md):
+                    for k_ in list(m_.keys()):
+                        if isinstance(md_val(m_[k_]), list):
+                            m_[k_] = ["changed", "p__%d" % j]
+                        elif isinstance(md_val(m_[k_]), str):
+                            m_[k_] = "changed %d" % j
+                if rng.random() < 0.4 and len(md[0]) > 1:
+                    t.del_metadata(keys=[sorted(md[0].keys())[0]], axis="observation")
+        elif h == "export_then_sort_inplace_ids":
+            # same matrix object, other IDs: rename two IDs into each other's text
+            ids = list(t.ids(axis=ax))
+            if len(ids) < 2:
+                return None
+            a, b = rng.sample(ids, 2)
+            t.update_ids({a: b, b: a}, axis=ax, strict=False, inplace=True)
+        return t
     raise ValueError(h)
 
 
@@ -319,6 +435,8 @@ def check_case(ctx, lib, case, tags=()):
     import numpy as np
     spec, route, hist, hseed = case["spec"], case["route"], case["history"], case["hseed"]
     t = core.build(spec, route)
+    src = t                                   # stays alive: tables derived from it must not share state with it
+    src_before = observe_export(src, None), core.canon_md(src.metadata(axis="observation"))
     try:
         t = apply_history(t, hist, hseed)
     except Exception as ex:  # noqa  (an operation refusing its input is not this property's business)
@@ -344,7 +462,18 @@ def check_case(ctx, lib, case, tags=()):
     kw = {}
     if mdmode:
         kw = dict(header_key=mdmode["key"], header_value=mdmode["value"], metadata_formatter=fm)
+    colname = case.get("colname")
+    if colname:
+        kw["observation_column_name"] = colname
+        e["colName"] = colname
+    profile = case.get("profile")
     tags = list(tags) + ["route=" + route, "history=" + hist, "md=" + (fm_name if mdmode else "none")]
+    if profile:
+        tags.append("profile=%s" % sorted(profile.items()))
+    # the reference observation `e` is taken; now leave the matrix in whatever layout reads leave behind
+    if case.get("poke"):
+        for c in core.poke_layout(t, random.Random(hseed + 2)):
+            ctx.count("layout-poked-before-export")
 
     # ---- export through the API
     try:
@@ -361,42 +490,45 @@ def check_case(ctx, lib, case, tags=()):
         texts["direct_io"] = buf.getvalue()
         if texts["direct_io"] != s + "\n":
             variants_equal = False
-        if t.delimited_self("\t", kw.get("header_key"), kw.get("header_value"), kw.get("metadata_formatter", str)) != s:
+        if t.delimited_self("\t", kw.get("header_key"), kw.get("header_value"), kw.get("metadata_formatter", str),
+                            kw.get("observation_column_name", "#OTU ID")) != s:
             variants_equal = False
-        if not mdmode and str(t) != s:
+        if not mdmode and not colname and str(t) != s:
             variants_equal = False
 
     # ---- export through `biom convert --to-tsv`
-    use_cli = s is not None and fm_name in ("sc_separated", "naive") and case.get("cli", True)
+    use_cli = s is not None and fm_name in ("sc_separated", "naive") and case.get("cli", True) and not colname
+    cli_extra = case.get("cli_extra") or {}
     cli_fmt = case.get("clifmt", "json")
     cli_error = None
     if use_cli:
-        src, out = tmp("in.biom"), tmp("out.tsv")
+        src_fp, out = tmp("in.biom"), tmp("out.tsv")
         rm(out)
         try:
             if cli_fmt == "json":
-                with open(src, "w", encoding="utf-8") as f:
+                with open(src_fp, "w", encoding="utf-8") as f:
                     f.write(t.to_json("c03"))
             else:
                 import h5py
-                with h5py.File(src, "w") as f:
+                with h5py.File(src_fp, "w") as f:
                     t.to_hdf5(f, "c03")
         except Exception as ex:  # noqa  (writing the BIOM input file is C01/C02's business)
             ctx.count("cli-input-file-not-writable:%s" % cli_fmt)
             use_cli = False
         if use_cli:
             try:
-                args = ["-i", src, "-o", out, "--to-tsv"]
+                args = ["-i", src_fp, "-o", out, "--to-tsv"]
                 if mdmode:
                     args += ["--header-key", mdmode["key"], "--tsv-metadata-formatter", fm_name]
                     if mdmode["value"] != mdmode["key"]:
                         args += ["--output-metadata-id", mdmode["value"]]
+                args += extra_cli_args(cli_extra, e["samp"], "to-tsv")
                 lib.convert(args)
                 with open(out, encoding="utf-8", newline="") as f:
                     texts["cli"] = f.read()
             except Exception as ex:  # noqa
                 cli_error = "%s: %s" % (type(ex).__name__, str(ex)[:200])
-        rm(src, out)
+        rm(src_fp, out, tmp("smd.txt"))
 
     # ---- import
     results = []
@@ -407,28 +539,82 @@ def check_case(ctx, lib, case, tags=()):
                         "agreeMd": bool(agree_md)})
 
     ident_ok = mdmode is None or fm_name in ("naive", "str")   # load_table has no processing function
+    mapping_failures = []
     if s is not None:
         ls = s.split("\n")
-        add("lines", ls, guarded(lambda: lib.Table.from_tsv(list(ls), None, None, pr)), True, pr_name)
-        add("handle", list(io.StringIO(s)), guarded(lambda: lib.Table.from_tsv(io.StringIO(s), None, None, pr)),
+        given = list(ls)
+        add("lines", ls, guarded(lambda: lib.Table.from_tsv(given, None, None, pr), profile), True, pr_name)
+        if given != ls:
+            mapping_failures.append("from_tsv changed the caller's list of lines")
+        add("handle", list(io.StringIO(s)), guarded(lambda: lib.Table.from_tsv(io.StringIO(s), None, None, pr), profile),
             True, pr_name)
         d = texts["direct_io"]
-        add("direct_io", list(io.StringIO(d)), guarded(lambda: lib.Table.from_tsv(io.StringIO(d), None, None, pr)),
+        add("direct_io", list(io.StringIO(d)), guarded(lambda: lib.Table.from_tsv(io.StringIO(d), None, None, pr), profile),
             True, pr_name)
-        add("parse_lines", ls, guarded(lambda: lib.parse.parse_biom_table(list(ls))), ident_ok, "naive")
-        add("parse_handle", list(io.StringIO(s)), guarded(lambda: lib.parse.parse_biom_table(io.StringIO(s))),
+        add("parse_lines", ls, guarded(lambda: lib.parse.parse_biom_table(list(ls)), profile), ident_ok, "naive")
+        add("parse_handle", list(io.StringIO(s)), guarded(lambda: lib.parse.parse_biom_table(io.StringIO(s)), profile),
             ident_ok, "naive")
+        # rarely used arguments: md_parse instead of the processing function; ID -> metadata mappings
+        if case.get("rare", True):
+            add("lines:md_parse", ls,
+                guarded(lambda: lib.Table.from_tsv(list(ls), None, None, lambda x: x, md_parse=pr), profile),
+                True, pr_name)
+            smap = AnyKey({i: {"where": "site %s" % i, "n": j} for j, i in enumerate(e["samp"])})
+            omap = AnyKey({i: {"mapped": "obs %s" % i} for i in e["obs"]})
+            kept = {}
+
+            def with_maps():
+                kept["t"] = lib.Table.from_tsv(list(ls), omap, smap, pr)
+                return kept["t"]
+            r_maps = guarded(with_maps, profile)
+            add("lines:mappings", ls, dict(r_maps, omd=None) if "error" not in r_maps else r_maps, False, pr_name,
+                agree_md=False)
+            if "t" in kept and "error" not in r_maps and r_maps["obs"] == e["obs"] and r_maps["samp"] == e["samp"]:
+                t2 = kept["t"]
+                got_s = core.canon_md(t2.metadata(axis="sample"))
+                got_o = core.canon_md(t2.metadata(axis="observation"))
+                if got_s != core.canon_md([smap[i] for i in e["samp"]]) or \
+                        got_o != core.canon_md([omap[i] for i in e["obs"]]):
+                    mapping_failures.append("obs_mapping/sample_mapping not attached by ID")
+        # the same path is re-used for other content and formats across cases (no per-path memo may survive)
         p, pz = tmp("x.tsv"), tmp("x.tsv.gz")
+        same = tmp("same.dat")
         with open(p, "w", encoding="utf-8", newline="") as f:
             f.write(s)
         with open(p, encoding="utf-8") as f:
             view = list(f)
-        add("path", view, guarded(lambda: lib.biom.load_table(p)), ident_ok, "naive")
+        add("path", view, guarded(lambda: lib.biom.load_table(p), profile), ident_ok, "naive")
+        import pathlib
+        add("pathlib", view, guarded(lambda: lib.biom.load_table(pathlib.Path(p)), profile), ident_ok, "naive")
+
+        def open_handle():
+            with open(p, encoding="utf-8") as fh:
+                return lib.biom.load_table(fh)
+        add("open-file", view, guarded(open_handle, profile), ident_ok, "naive")
         with gzip.open(pz, "wb") as f:
             f.write(s.encode("utf-8"))
         with lib.util.biom_open(pz) as f:
             viewz = list(f)
-        add("gzip", viewz, guarded(lambda: lib.biom.load_table(pz)), ident_ok, "naive")
+        add("gzip", viewz, guarded(lambda: lib.biom.load_table(pz), profile), ident_ok, "naive")
+        if case.get("same_path"):
+            order = ["gz", "plain", "json"] if hseed % 2 else ["json", "plain", "gz"]
+            for kind in order:
+                if kind == "gz":
+                    with gzip.open(same, "wb") as f:
+                        f.write(s.encode("utf-8"))
+                    add("same-path:gzip", viewz, guarded(lambda: lib.biom.load_table(same), profile), ident_ok, "naive")
+                elif kind == "plain":
+                    with open(same, "w", encoding="utf-8", newline="") as f:
+                        f.write(s)
+                    add("same-path:plain", view, guarded(lambda: lib.biom.load_table(same), profile), ident_ok, "naive")
+                else:
+                    try:
+                        with open(same, "w", encoding="utf-8") as f:
+                            f.write(t.to_json("c03"))
+                        lib.biom.load_table(same)
+                    except Exception:  # noqa  (C02's business; only there to occupy the path with another format)
+                        pass
+            rm(same)
         # `biom convert` back to a BIOM file, from the plain and from the gzip file
         if use_cli and cli_error is None:
             for nm in ("cli", "cli-gzip"):
@@ -446,6 +632,8 @@ def check_case(ctx, lib, case, tags=()):
                 args = ["-i", src_used, "-o", back, "--to-json" if cli_fmt == "json" else "--to-hdf5"]
                 if mdmode:
                     args += ["--process-obs-metadata", pr_name]
+                args += extra_cli_args(cli_extra, e["samp"], "from-tsv")
+                want_type = cli_extra.get("table_type") or "Table"
                 handed = {}
                 real_writer = lib.tc.write_biom_table
 
@@ -475,6 +663,14 @@ def check_case(ctx, lib, case, tags=()):
                 add(nm + ":table", view_cli, guarded(table_handed), True, pr_name, cli=True)
                 add(nm + ":file-" + cli_fmt, view_cli, guarded(table_loaded), file_md, pr_name, cli=True,
                     agree_md=file_md)
+                if conv_exc is None and "t" in handed:
+                    if handed["t"].type != want_type:
+                        mapping_failures.append("--table-type not honoured: %r" % (handed["t"].type,))
+                    if cli_extra.get("sample_md"):
+                        got = core.canon_md(handed["t"].metadata(axis="sample"))
+                        want = core.canon_md([{"site": "site %d" % j} for j in range(len(e["samp"]))])
+                        if got != want:
+                            mapping_failures.append("--sample-metadata-fp not attached by ID")
                 if not file_md:
                     ctx.count("hdf5-list-metadata-under-generic-name: grid and IDs only (C01)")
                 rm(back)
@@ -560,6 +756,15 @@ def check_case(ctx, lib, case, tags=()):
             ctx.fail(case, clause, tags + ["reader=" + rt], detail={"clause": r["clause"], "results": results})
         elif not r["agree"]:
             ctx.diverge(case, "model differs: %s" % r["what"], tags, detail={"model": r["model"]})
+    # exporting is a read: the table, and the table it was derived from, are what they were
+    if observe_export(t, mdmode) != {k: v for k, v in e.items() if k != "colName"}:
+        ctx.fail(case, "export_changed_table", tags, detail="table differs after to_tsv/str/delimited_self")
+    if t is not src and hist not in ("none",):
+        if (observe_export(src, None), core.canon_md(src.metadata(axis="observation"))) != src_before:
+            ctx.fail(case, "source_table_changed", tags, detail="the table %s was derived from changed" % hist)
+    for what in mapping_failures:
+        if in_guard:
+            ctx.fail(case, "argument_honoured", tags, detail=what)
     for nm, lines, impl in extract_reqs:
         rr = ctx.driver.ask({"op": "extract", "lines": lines, "parseOracle": parse_oracle([lines]), "impl": impl})
         ctx.count("extract(%s)=%s" % (nm, "agree" if rr["agree"] else "DIFFER"))
@@ -680,6 +885,35 @@ def fixed_corpus():
 # ----------------------------------------------------------------------------- entry points
 
 
+COLNAMES = ["#OTU ID", "Feature ID", "#ID", "taxon é", "OTU", "#"]
+PROFILES = [{"empty": "raise"}, {"empty": "warn"}, {"empty": "call"}, {"empty": "print"}, {"all": "raise"},
+            {"obsdup": "ignore", "empty": "raise"}]
+
+
+def warm_up(lib):
+    """process-level state: call everything once, early, with unusual optional arguments; every later
+    default call of the run is then judged as usual"""
+    import numpy as np
+    t = lib.Table(np.array([[1.0, 0.0], [2.0, 3.5]]), ["w1", "w2"], ["x", "y"],
+                  [{"taxonomy": ["k__W", "p__w"], "n": 1}, {"taxonomy": ["k__V"], "n": 2}])
+    try:
+        t.to_tsv(header_key="n", header_value="number", metadata_formatter=lambda v: "<%s>" % v,
+                 observation_column_name="Weird")
+        t.delimited_self(delim=",", observation_column_name="C")
+        s = t.to_tsv(header_key="taxonomy", header_value="tx", metadata_formatter=lambda v: "|".join(v))
+        lib.Table.from_tsv(s.split("\n"), None, None, lambda v: v.split("|"), md_parse=lambda v: v.upper())
+        lib.Table._extract_data_from_tsv(["#ID,a,b", "r,1,2"], delim=",", dtype=int)
+        lib.Table._extract_data_from_tsv(io.StringIO("#ID\ta\nr\t7\n"), dtype=lambda v: float(v) * 2)
+        p = tmp("warm.dat")
+        for content in (t.to_json("w"), s):
+            with open(p, "w", encoding="utf-8") as f:
+                f.write(content)
+            lib.biom.load_table(p)
+        rm(p)
+    except Exception:  # noqa  (nothing is judged here)
+        pass
+
+
 def check_ws(ctx):
     r = ctx.driver.ask({"op": "ws"})
     py = [i for i in range(0x110000) if chr(i).isspace()]
@@ -705,10 +939,32 @@ def run(ctx):
                    "Lean `ws` = Python str.isspace (compared over all code points at start)"]
     try:
         check_ws(ctx)
+        warm_up(lib)
         for case, tags in fixed_corpus():
             check_case(ctx, lib, case, tags)
         rng = ctx.rng
-        budget = 34 if ctx.quick() else 420
+        # size thresholds: many IDs on one axis, and one text of more than 64 KiB
+        for k, (axis, n_axis, other) in enumerate((("sample", None, None), ("observation", None, None),
+                                                   ("sample", 64, 1), ("observation", 65, 1),
+                                                   ("sample", 100, 100))):
+            if not ctx.mine(k):
+                continue
+            wspec = core.wide_spec(rng, n_axis=n_axis, other=other, axis=axis,
+                                   classes=("count",) if (n_axis, other) == (100, 100) else ("count", "tiny", "neg"))
+            if k % 2 == 0:
+                wspec["omd"] = [{"taxonomy": ["k__A", "p__%d" % i]} for i in range(len(wspec["obs"]))]
+            check_case(ctx, lib, {"spec": wspec, "route": rng.choice(core.ROUTES),
+                                  "history": rng.choice(["none", "sort_samples", "sort_obs", "export_then_transform"]),
+                                  "hseed": rng.randint(0, 10 ** 9), "mdmode": "auto", "clifmt": "json",
+                                  "cli": k in (0, 1), "poke": True, "rare": k < 4}, ("wide",))
+            ctx.count("wide-case")
+        # IDs ending or starting with a blank are outside the guard: the model must predict what happens
+        for obs, samp in ((["O1 ", "O2"], ["S1", "S2"]), (["O1", "O2"], ["S1", "S2 "]), (["O1", "O2"], ["S1", "S2\x1c"]),
+                          ([" O1", "O2"], [" S1", "S2"]), (["O1", "O2\xa0"], ["S1\u3000", "S2"])):
+            check_case(ctx, lib, {"spec": {"obs": obs, "samp": samp, "rows": [[1.0, 0.0], [2.5, 3.0]], "omd": None,
+                                           "smd": None, "type": None}, "route": "dense", "history": "none",
+                                  "hseed": 3, "mdmode": None}, ("blank-ended-id",))
+        budget = 30 if ctx.quick() else 420
         max_n, max_m = (5, 5) if ctx.quick() else (8, 8)
         i = 0
         while ctx.time_left(budget) > 0:
@@ -727,7 +983,12 @@ def run(ctx):
             spec = gen_spec(rng, max_n, max_m, shape, omd_kind)
             case = {"spec": spec, "route": rng.choice(core.ROUTES), "history": rng.choice(HISTORIES),
                     "hseed": rng.randint(0, 10 ** 9), "mdmode": "auto", "clifmt": rng.choice(["json", "json", "hdf5"]),
-                    "cli": (not ctx.quick()) or i % 3 == 0}
+                    "cli": (not ctx.quick()) or i % 3 == 0,
+                    "poke": rng.random() < 0.6, "rare": i % 2 == 0, "same_path": i % 5 == 0,
+                    "colname": rng.choice(COLNAMES) if rng.random() < 0.1 else None,
+                    "profile": rng.choice(PROFILES) if rng.random() < 0.25 else None,
+                    "cli_extra": {"table_type": rng.choice([None, "OTU table", "Taxon table", "Table"]),
+                                  "sample_md": rng.random() < 0.3}}
             check_case(ctx, lib, case)
             if i % 4 == 0:
                 extract_case(ctx, lib, gen_classic(rng))
